@@ -79,8 +79,29 @@ structure Build where
   depth  : Nat := 0
   deriving Repr, Inhabited
 
-/-- `mpt_meta_new` for a character vector: accepted for every length (see the `fix:` commits) -/
-def metaNew (v : List UInt8) : Option (List UInt8) := some v
+/-- the two representations `mpt_meta_new` chooses between for a character vector: the basic metatype
+    with the text stored behind the object (`mpt_meta_geninfo`; offers the string and the vector
+    conversion) and the buffer metatype (`mpt_meta_buffer`; vector conversion only) -/
+inductive MetaRep where
+  | inline (text : List UInt8)
+  | buffer (text : List UInt8)
+  deriving Repr, DecidableEq
+
+def MetaRep.text : MetaRep → List UInt8
+  | .inline t => t
+  | .buffer t => t
+
+/-- `_mpt_geninfo_size(len + 1) < 0` decides: text, terminating zero, 4 bytes of `struct metaInfo` and one
+    more byte have to fit into 255 -/
+def metaRep (v : List UInt8) : MetaRep :=
+  if v.length + 1 + 4 + 1 ≤ 255 then .inline v else .buffer v
+
+@[simp] theorem metaRep_text (v : List UInt8) : (metaRep v).text = v := by
+  unfold metaRep; split <;> rfl
+
+/-- `mpt_meta_new` for a character vector: accepted for every length (see the `fix:` commits); the
+    value read back from either representation is the text -/
+def metaNew (v : List UInt8) : Option (List UInt8) := some (metaRep v).text
 
 /-- name of a new node: last path element (`mpt_path_last`, `mpt_identifier_set`); refused when the
     identifier cannot hold it (`len + 1 > UINT16_MAX`) -/
